@@ -76,4 +76,21 @@ PROPS = {
         },
         'components': E3_COMPONENTS, 'assumptions': COMMON_ASSUME + E3_ASSUME,
     },
+    'C17': {
+        'engine': 'e4', 'module': 'gnpysim.e4_design',
+        'tiers': {
+            'quick': {'tasks': 32, 'max_examples': 14, 'step_count': 8, 'shrink_seconds': 60, 'task_timeout': 1500},
+            'thorough': {'tasks': 256, 'max_examples': 70, 'step_count': 12, 'shrink_seconds': 400,
+                         'task_timeout': 7000},
+        },
+        'components': {'real': ['json_io loaders, network_from_json, network_to_json, save_network / load_network incl. '
+                                'YANG conversion', 'auto-design: designed_network, add_missing_elements_in_network, '
+                                'build_network, estimate_raman_gain, every element to_json', 'propagate (probe)'],
+                       'stubbed': ['file system: in-memory SimDisk injected as gnpy.tools.json_io.open',
+                                   'process restart in in-process mode (objects dropped, SimParams reset to import-time '
+                                   'values); the child-interpreter operation is a literal new process']},
+        'assumptions': COMMON_ASSUME + ['numeric tolerances of the fixpoint are the export\'s own rounding '
+                                        '(gain_target 2e-6, tilt_target 2e-5, length / loss_coef 2e-6, others 1e-9)',
+                                        'a design that raises midway is not judged for the SimParams clause (note N1)'],
+    },
 }
